@@ -23,7 +23,8 @@ from mc.models import query_model as Q
 ID = "C15"
 LEVEL = "exploration"
 DAY = dt.date(2024, 5, 15)
-NAMES = ["qa", "qb", "qc"]
+NAMES = ["qa", "qb.v2", "qc"]
+DECOYS = {"qb": "# W #nosuchtag", "q": "# W +nosuchproject", "qb.v": "# W @nosuchctx"}
 _IX: dict[str, IX.Index] = {}
 
 PLAIN = [
@@ -61,7 +62,7 @@ Y = ["tag", "@", "c1", True]
 
 
 def referencing_queries():
-    a, b = ["ref", "qa"], ["ref", "qb"]
+    a, b = ["ref", "qa"], ["ref", "qb.v2"]
     return [
         ("W {a}", None, [[a]]),
         ("W X {a}", None, [[X, a]]),
@@ -134,7 +135,7 @@ def _run_case(ctx, case) -> F.Outcome:
         p.unlink()
     if kind == "missing":
         _, qtext = case
-        (zoq / "qb.zoq").write_text("# W #t1\n")
+        (zoq / "qb.zoq").write_text("# W #t1\n")  # exists: prefix of the missing qb.v3
         exp = expand_saved_queries(ix.zdir, qtext)
         res, err = ix.execute(qtext)
         out.obs = H.digest([exp, err])
@@ -151,6 +152,9 @@ def _run_case(ctx, case) -> F.Outcome:
         clause = clause_options(k, False)[idxs[k]] if not ctx.quick or k != 2 else clause_options(k, True)[idxs[k]]
         env[name] = clause
         (zoq / f"{name}.zoq").write_text(wrap(render_with_refs(clause), (style + k) % 3) + "\n# extra header line\n")
+    for dname, dtext in DECOYS.items():
+        # saved pages whose names are prefixes of a referenced name; never referenced themselves
+        (zoq / f"{dname}.zoq").write_text(dtext + "\n")
     label, select, where = referencing_queries()[qi]
     qtext = ("S " + Q.render_select(select) + " " if select else "") + "W " + render_with_refs(where)
     U = ix.universe
@@ -231,7 +235,7 @@ def _cases(ctx):
             for qi in range(nq):
                 cases.append(["ref", ia, ib, ic, style, qi])
     for qtext in ("W {nosuch}", "W o {nosuch}", "S count(note) W {nosuch} #t1", "W {qb} {nosuch}",
-                  "W #t1 | {nosuch}"):
+                  "W #t1 | {nosuch}", "W {qb.v3}", "W {qb.}"):
         cases.append(["missing", qtext])
     return cases
 
